@@ -55,7 +55,7 @@ PROPS["C14"] = dict(
         technique="Coq proof: refinement of node-list+index cache to an LRU recency list by invariant, for all histories; extracted model vs implementation differential check"),
     n=dict(quick=3000, thorough=60000),
     consts=[],
-    theorems=["C14_refines_spec", "C14_bound_nodup", "C14_set_mru", "C14_get_mru", "C14_evict_lru", "C14_replace", "C14_delete_only"],
+    theorems=["C14_router_key", "C14_refines_spec", "C14_bound_nodup", "C14_set_mru", "C14_get_mru", "C14_evict_lru", "C14_replace", "C14_delete_only"],
     rule="cases = (capacity 0..9, history of 1..60 Set/Get/Has/Delete/Len over 2..6 keys) against rux.NewCachedRoutes, and request histories "
          "against a caching router; observed after every op: result and key order (verif-tag accessor). Non-trivial = distinct history with at least "
          "one Set into a full cache and one hit (cache part) or at least one dynamic hit served from the cache after an eviction (router part).",
@@ -194,8 +194,13 @@ PROPS["C01"] = dict(
     assumptions=["route tables within the documented grammar (definitions outside it are skipped by the spec judge and still compared with the model)"],
 )
 PROPS["C02"] = dict(
+    claim=dict(
+        text="Machine-checked proof (Coq 8.16) over the grammar-level pattern AST (literals, {name}, {name:regex}, global variables, nested optional tails) and the backtracking matcher in Go's leftmost-first order: for every pattern whose variable regexes have no capture group and every path the compiled expression matches, the captures form a valid decomposition of the path - literals verbatim, every variable of a present part a word of its regex, variables of absent optional parts empty - and capture i is the value of variable i (C02_captures, via capture-threaded soundness of the matcher); handlers receive exactly the variable names bound to those values (C02_params); a pattern matches exactly the decomposable paths (C02_matches_iff); static hits carry nil parameters (C02_static); the cache returns the same parameters as the uncached lookup (C02_cached). Tie to the code: for the route the implementation selected (Router.Match and Context.Params inside handlers, cache on/off, repeated requests) the parameters are compared with pat_params of that route's pattern.",
+        note="Trusted: Coq kernel, extraction, driver, harness; Go's regexp is modelled by the backtracking matcher on the parser subset. Uniqueness of the decomposition for slash-free variables is not proved separately (the judge compares with the leftmost-first captures, which is what Go returns). Distinct variable names are assumed for C02_params.",
+        technique="Coq proof: capture soundness of a backtracking regex matcher lifted to route patterns with optional tails; assume-guarantee differential check against the implementation"),
     n=dict(quick=1500, thorough=40000),
     consts=["global-vars", "any-match"],
+    theorems=["C02_captures", "C02_params", "C02_matches_iff", "C02_static", "C02_cached"],
     rule="case = table of 1..6 routes as for C01, cache on (capacity 0..4) in half of the cases; probes through Router.Match and ServeHTTP (Context.Params inside "
          "the handler), a third of them repeated so that cache hits occur. For the route the implementation selected, its parameters are compared with the "
          "captures of that route's pattern. Non-trivial = distinct table with >= 2 routes and >= 2 hits.",
@@ -212,16 +217,26 @@ PROPS["C06"] = dict(
     trusted_base=_RT_TRUSTED, assumptions=[],
 )
 PROPS["C07"] = dict(
+    claim=dict(
+        text="Machine-checked proof (Coq 8.16) over the router model (static tier, LRU cache, first-node indexed and residual dynamic tiers, QuickMatch ladder): under the invariant 'every cache entry is what the dynamic tiers answer for its key and its key is no static key' (coherent), a lookup, a whole request resolution (HEAD->GET, '/*' fallback, allowed-method probes) and every history of requests answer exactly like the same router with caching disabled, for every capacity including 0 and 1, after evictions and for repeats (C07_match, C07_quick_match, C07_transparent); fresh routers are coherent and registration keeps the cache empty; method+path keys are injective for '/'-free methods (C07_key_injective). Tie to the code: every step of generated histories (URL pools with repetition, capacities 0,1,2,3,1000) is executed on a caching router and on a non-caching twin built from the same definitions; results, parameters and responses must coincide.",
+        note="Trusted: Coq kernel, extraction, driver, harness; methods containing '/' are outside the quantifier (cannot arrive through net/http); handlers treat Params as read-only (the property's quantifier).",
+        technique="Coq proof: coherence invariant of the cache over all request histories (refinement to the cache-free lookup); twin-router differential check"),
     n=dict(quick=600, thorough=20000),
     consts=[],
+    theorems=["C07_match", "C07_quick_match", "C07_transparent", "C07_initial", "C07_key_injective"],
     rule="case = table as for C01, cache capacity in {0,1,2,3,1000}, optional 405 handling / fallback / strict; history of 20..60 requests (Match and ServeHTTP) drawn "
          "with repetition from a pool of 2..8 URLs (incl. HEAD); every step is executed on the caching router and on a non-caching twin. "
          "Non-trivial = distinct history with at least one eviction and one repeated cache state.",
     trusted_base=_RT_TRUSTED, assumptions=["handlers treat Params as read-only and registration is finished before the first request (the property's quantifier)"],
 )
 PROPS["C13"] = dict(
+    claim=dict(
+        text="Machine-checked proof (Coq 8.16): each rejected class makes registration panic in the model - nil handler, no method, a method that is not exactly one of the nine, options after routes, 63 or more handlers, an uncompilable expression, a number of capturing groups different from the number of variables, an optional part not at the end (C13_rejects_*); every router reachable by accepted registrations is well formed (ids within range, group count = name count: C13_wf_initial, C13_wf_preserved) and on a well-formed router no method string and no path string makes QuickMatch panic, with any options incl. caching without routes (C13_total_lookup, using totality of formatPath). F05 is kept as a refuted witness. Tie to the code: a malformed-definition stream (incl. handler counts around 63/127/128/255/256) is registered against the real router, accept/reject compared with the model where the regex is inside the parser subset; for all accepted definitions hostile lookups (empty, white space, non-UTF-8, long) must not panic (direct oracle, independent of the model).",
+        note="PARTIAL: the theorem covers pattern strings whose regex text is inside the modelled syntax subset (RxParse.v); full Go regexp syntax is only explored by the direct no-panic oracle. Trusted: Coq kernel, extraction, driver, harness; Go regexp modelled.",
+        technique="Coq proof: well-formedness invariant of the router tables implies panic-free lookup; rejection lemmas; differential + direct no-panic oracle"),
     n=dict(quick=3000, thorough=60000),
     consts=["any-methods", "abort-index"],
+    theorems=["C13_rejects_nil_handler", "C13_rejects_unknown_method", "C13_rejects_capturing_group", "C13_wf_preserved", "C13_total_lookup"],
     rule="case = 0..3 well-formed routes + 0..4 definitions from a malformed-pattern stream (unbalanced braces/brackets, capturing groups, optional part not at the end, "
          "uncompilable regexes, stray metacharacters, mutations) with near-miss method names and occasional nil handlers, random options (incl. caching without "
          "routes, InterceptAll), 12 hostile lookups (empty, white-space, non-UTF-8, very long, encoded). Observed: accept/reject per definition, panic per lookup. "
